@@ -121,7 +121,7 @@ impl Preprocessor {
         // this needs an explicit err map.
         let parsed: Vec<Rc<SExp>> = parse_sexp(start_of_file.clone(), content.iter().copied())
             .err_into()
-            .and_then(|x| match x[0].proper_list() {
+            .and_then(|x| match x.first().and_then(|f| f.proper_list()) {
                 None => Err(CompileErr(
                     start_of_file,
                     "Includes should contain a list of forms".to_string(),
